@@ -38,6 +38,7 @@ type PostAggregationExpression struct {
 	RequiredAggFields []string                  // 依赖的聚合字段，如 ["__first_value_0__", "__last_value_1__"]
 	OriginalExpr      string                    // 原始表达式，用于调试
 	processor         *PostAggregationProcessor // 处理器引用
+	arithmeticOnly    bool                      // template is pure arithmetic over placeholders and numbers
 }
 
 // Evaluate 评估后聚合表达式
@@ -85,6 +86,7 @@ func (p *PostAggregationProcessor) AddExpression(outputField, originalExpr strin
 		RequiredAggFields: aggFields,
 		OriginalExpr:      originalExpr,
 		processor:         p,
+		arithmeticOnly:    isArithmeticTemplate(exprTemplate, aggFields),
 	}
 	p.expressions = append(p.expressions, expr)
 	p.fieldsCache[outputField] = aggFields
@@ -122,6 +124,13 @@ func (p *PostAggregationProcessor) ProcessResults(results []map[string]any) ([]m
 				continue
 			}
 
+			// SQL arithmetic over a NULL aggregate is NULL; the expression engine would
+			// otherwise turn "NULL + 30" into the string "30"
+			if expr.arithmeticOnly && p.hasNilField(result, expr.RequiredAggFields) {
+				result[expr.OutputField] = nil
+				continue
+			}
+
 			// Evaluate expression
 			exprResult, err := p.evaluateExpressionFast(expr.Expression, result)
 			if err != nil {
@@ -148,6 +157,38 @@ func (p *PostAggregationProcessor) checkRequiredFields(result map[string]any, re
 		}
 	}
 	return true
+}
+
+// hasNilField checks if any of the required fields holds a NULL aggregate result
+func (p *PostAggregationProcessor) hasNilField(result map[string]any, requiredFields []string) bool {
+	for _, field := range requiredFields {
+		if result[field] == nil {
+			return true
+		}
+	}
+	return false
+}
+
+// isArithmeticTemplate reports whether an expression template combines its aggregate
+// placeholders only with numbers, arithmetic operators and parentheses, e.g.
+// "__sum_1__ + __sum_2__ * 2". Templates with functions or other syntax (coalesce,
+// CASE, IS NULL ...) may handle NULL themselves and are not arithmetic-only.
+func isArithmeticTemplate(exprTemplate string, aggFields []string) bool {
+	rest := exprTemplate
+	for _, field := range aggFields {
+		rest = strings.ReplaceAll(rest, field, " ")
+	}
+	hasOperator := false
+	for i := 0; i < len(rest); i++ {
+		switch c := rest[i]; {
+		case c == '+' || c == '-' || c == '*' || c == '/' || c == '%':
+			hasOperator = true
+		case c >= '0' && c <= '9', c == '.', c == '(', c == ')', c == ' ', c == '\t':
+		default:
+			return false
+		}
+	}
+	return hasOperator
 }
 
 // markPlaceholderFields marks placeholder fields for cleanup
